@@ -627,6 +627,50 @@ pub fn record_semiring(args: &Args) {
         }
         out.emit(ev);
     }
+    // ---- large exactly representable integers (up to 2^53) in the two-component types: every partial product and every
+    // result of the DEFINING formula stays below 2^53, so the f64 operations of the definition are exact; a reformulation
+    // that is algebraically equal but has larger intermediates is not
+    for _ in 0..(rounds / 2).max(60) {
+        let kind = *rng.pick(&["complex", "eu"]);
+        // bit budgets m + n <= 52: |x_i| < 2^m, |y_i| < 2^n
+        let m = rng.range(1, 51);
+        let n = rng.range(1, 52 - m);
+        let big = |rng: &mut Rng, bits: usize| -> i64 {
+            let top = 1i64 << bits;
+            let v = match rng.below(5) {
+                0 => top - 1,
+                1 => (top >> 1) + 1,
+                2 => top >> 1,
+                3 => rng.below(4) as i64,
+                _ => (rng.next() % top as u64) as i64,
+            };
+            if rng.coin() { -v } else { v }
+        };
+        let one_case = rng.chance(1, 4);
+        let x = if one_case { (big(&mut rng, 53), big(&mut rng, 53)) } else { (big(&mut rng, m), big(&mut rng, m)) };
+        let y = if one_case { (1i64, 0i64) } else { (big(&mut rng, n), big(&mut rng, n)) };
+        let sg = |v: i64| json!({"s": v.signum(), "m": limbs(v.unsigned_abs() as u128)});
+        let sf = |v: f64| if v.is_finite() && v.fract() == 0.0 && v.abs() <= 9007199254740992.0 { sg(v as i64) } else { json!({"s": 2, "m": [0]}) };
+        let mut ev = json!({"ev": "big2", "sr": kind, "x": [sg(x.0), sg(x.1)], "y": [sg(y.0), sg(y.1)]});
+        let r = if kind == "complex" {
+            let (a, b) = (Complex { re: x.0 as f64, im: x.1 as f64 }, Complex { re: y.0 as f64, im: y.1 as f64 });
+            guarded(|| {
+                let j = |c: Complex| json!([sf(c.re), sf(c.im)]);
+                json!({"mul": j(a * b), "mul_ba": j(b * a), "x_one": j(a * Complex::one()), "one_x": j(Complex::one() * a), "x_zero": j(a * Complex::zero())})
+            })
+        } else {
+            let (a, b) = (ExpectedUtility(x.0 as f64, x.1 as f64), ExpectedUtility(y.0 as f64, y.1 as f64));
+            guarded(|| {
+                let j = |c: ExpectedUtility| json!([sf(c.0), sf(c.1)]);
+                json!({"mul": j(a * b), "mul_ba": j(b * a), "x_one": j(a * ExpectedUtility::one()), "one_x": j(ExpectedUtility::one() * a), "x_zero": j(a * ExpectedUtility::zero())})
+            })
+        };
+        match r {
+            Ok(v) => ev["r"] = v,
+            Err(m) => ev["panic"] = json!(m),
+        }
+        out.emit(ev);
+    }
     // ---- truncated polynomials: short ones exhaustively-ish, and lengths around the truncation bound
     for i in 0..(rounds / 2).max(40) {
         let len_of = |rng: &mut Rng| if i % 3 == 0 { *rng.pick(&[0usize, 1, 2, 16, 17, 30, 31, 32]) } else { rng.below(3) };
